@@ -57,3 +57,15 @@ func VsymC04_Twin() {
 	start, _ := l.computeSegmentRange(segmentRange{baseOffset: 0, lastOffset: 0, size: 32 + 70 + segmentFooterLen}, ib.Entries(), vsym_Int64("o"), 10)
 	vsym_Assert(start != 32, "C04/twin")
 }
+
+// VsymC04_Read: the same question through the real PartitionLog.Read over a log built by the
+// real append/flush path (see harness/stor/read.go): segment lookup, gap snap-forward, cached and
+// range-read paths, write buffer.
+func VsymC04_Read() {
+	interval := int32(1)
+	if vsym_Param("sparse") == 1 {
+		interval = 100
+	}
+	w := vsymBuildReadWorld(interval, vsym_Param("cache") == 1, vsym_Param("hole") == 1, vsym_Param("restart") == 1)
+	vsymCheckRead(w, 4)
+}
